@@ -463,6 +463,11 @@ def program_body(program, max_queue_size, faults, FakeDisk):
                 obs.append(o)
         except Violation as v:
             violation = v
+            if not model.closed:
+                try:
+                    cache.close()  # let the worker terminate, so that the violation (not a hang) is what gets reported
+                except Exception:  # noqa: BLE001
+                    pass
         worker = storage.worker
         return dict(obs=obs, violation=violation, worker=worker, fault=FakeDisk.fault_happened)
 
@@ -501,6 +506,21 @@ def explore_program(program, mq, faults, bound, max_exec=None):
     body = program_body(program, mq, faults, FakeDisk)
     stats = sched.explore(body, bound, lambda x: check_execution(x, program, viol, outcomes, info), max_exec=max_exec)
     return stats, viol, outcomes
+
+
+def programs_single_key(lengths=(4, 5)):
+    """Longer programs over ONE key and the operations that interact through the worker (set/get/del/preload and
+    eviction from the short-term cache): needed for preload-then-overwrite-then-read-from-storage patterns."""
+    ops = [('set', 'a'), ('get', 'a'), ('del', 'a'), ('preload', 'a'), ('stk', ())]
+    out = []
+    for n in lengths:
+        for prog in itertools.product(ops, repeat=n):
+            if prog[0] != ('set', 'a') or ('preload', 'a') not in prog:
+                continue  # (shorter programs / programs without preload are covered by the complete family)
+            if any(prog[i] == prog[i + 1] and prog[i][0] in ('get', 'stk', 'del') for i in range(n - 1)):
+                continue  # immediate repetition of an idempotent operation adds no behaviour
+            out.append(prog)
+    return out
 
 
 def programs(length, rich):
@@ -647,7 +667,10 @@ def replay_events(ops):
                 h.connect(mk('X'))
                 if len(eh.listeners) != n0:
                     raise Violation('events:copy-aliased', 'connect on a copy changed the original handler')
-    state = (tuple((m[0], m[2]) for m in model), next_id)
+    # canonical state: the model AND the hidden state of the real object (order of its internal list, any cached
+    # counters/flags) - states that differ only there have different futures (e.g. 'sorted since the last emit')
+    hidden = tuple(sorted((k, repr(v)) for k, v in vars(eh).items() if k not in ('listeners', 'arg_descr') and isinstance(v, (int, bool, str, type(None), tuple))))
+    state = (tuple((m[0], m[2]) for m in model), next_id, tuple(l.listener_id for l in eh.listeners), hidden)
     return state, calls
 
 
@@ -717,6 +740,10 @@ def units(tier, seed, label):
         p3 = programs(3, rich=False)
         for a in range(0, len(p3), 40):
             us.append(('B', [list(map(list, p)) for p in p3[a:a + 40]], 1, 0, 1, None))
+    pk = programs_single_key((4, 5) if quick else (4, 5, 6))
+    for mq in (1, 2):
+        for a in range(0, len(pk), 30):
+            us.append(('B', [list(map(list, p)) for p in pk[a:a + 30]], mq, 0, 1 if quick else 2, None))
     # Part C
     for op in event_ops(1):
         if op[0].startswith('connect'):
